@@ -597,7 +597,7 @@ func (g *PG) Program() []*canon.Node {
 	nforms := 1 + r.Intn(5)
 	for i := 0; i < nforms; i++ {
 		g.nodes = 0
-		switch r.Intn(9) {
+		switch r.Intn(10) {
 		case 0, 1:
 			name := fmt.Sprintf("g%d%s", len(g.globals), sfx)
 			ty := Pick(r, []Ty{TInt, TInt, TList, TBool})
@@ -643,6 +643,50 @@ func (g *PG) Program() []*canon.Node {
 			} else {
 				forms = append(forms, g.Expr(TAny, 1))
 			}
+		case 7:
+			// closures created in successive iterations of a (tail-)recursive loop escape through an accumulator and
+			// are called after the loop has finished: each must still see the bindings of its own iteration
+			g.stat("closures-from-loop")
+			name := fmt.Sprintf("coll%d%s", len(g.globals), sfx)
+			n, acc := sy("n"), sy("acc")
+			captured := Pick(r, []*canon.Node{n, call("*", n, canon.In(10)), li(sy("list"), n, sy("k"))})
+			thunk := li(sy("fn"), li(), captured)
+			if r.Intn(3) == 0 {
+				thunk = li(sy("fn"), li(sy("x")), call("list", sy("x"), captured))
+			}
+			rec := call(name, call("-", n, canon.In(1)), call("cons", thunk, acc))
+			if r.Intn(2) == 0 {
+				rec = call(name, call("-", n, canon.In(1)), call("conj", acc, thunk)) // acc is a vector
+			}
+			// the recursive call in various tail positions
+			switch r.Intn(5) {
+			case 0:
+				rec = li(sy("do"), g.mark(), rec)
+			case 1:
+				rec = li(sy("let"), li(sy("k"), call("+", n, canon.In(100))), rec)
+			case 2:
+				rec = li(sy("cond"), canon.Bo(false), canon.N(), canon.Ke("else"), rec)
+			case 3:
+				rec = li(sy("if"), canon.Bo(true), rec, canon.N())
+			}
+			body := li(sy("if"), call("<", n, canon.In(1)), acc, rec)
+			fnForm := li(sy("fn"), li(n, acc), body)
+			switch r.Intn(3) {
+			case 0:
+				fnForm = li(sy("fn"), li(n, acc), li(sy("let"), li(sy("k"), call("+", n, canon.In(100))), body))
+			case 1:
+				// k is captured from the defining scope; the recursive call is made directly from the function's own frame
+				fnForm = li(sy("let"), li(sy("k"), canon.In(7)), li(sy("fn"), li(n, acc), body))
+			default:
+				fnForm = li(sy("let"), li(sy("k"), canon.In(7)), li(sy("fn"), li(n, acc), g.mark(), body))
+			}
+			forms = append(forms, li(sy("def"), sy(name), fnForm))
+			initAcc := Pick(r, []*canon.Node{call("list"), canon.Ve()})
+			callAll := li(sy("fn"), li(sy("f")), li(sy("f")))
+			if thunk.L[1].K == canon.List && len(thunk.L[1].L) == 1 {
+				callAll = li(sy("fn"), li(sy("f")), li(sy("f"), canon.Ke("arg")))
+			}
+			forms = append(forms, g.tr(call("map", callAll, call(name, canon.In(1+r.Intn(5)), initAcc))))
 		default:
 			forms = append(forms, g.Expr(TAny, 1))
 		}
@@ -703,6 +747,40 @@ func (g *PG) genMacroDef() []*canon.Node {
 		g.stat("macro-def-as-fn")
 	}
 	forms = append(forms, g.tr(g.macroCall(2)))
+	a, b := g.tr(g.Expr(TInt, 3)), g.tr(g.Expr(TInt, 3))
+	switch r.Intn(4) {
+	case 0, 1:
+		// a macro defined in an inner scope and called there, in tail and non-tail position: the call must be
+		// recognised as a macro call in the scope it is evaluated in
+		g.stat("inner-scope-macro")
+		im := fmt.Sprintf("im%d%s", len(g.macros), g.o.Suffix)
+		imDef := li(sy("defmacro"), sy(im), li(sy("fn"), li(sy("x"), sy("y")), li(sy("quasiquote"), li(sy("if"), uq("x"), li(sy("list"), canon.Ke("then"), sy("q")), uq("y")))))
+		imCall := li(sy(im), a, b)
+		var holder *canon.Node
+		switch r.Intn(4) {
+		case 0:
+			holder = li(sy("let"), li(sy("q"), canon.In(5)), imDef, imCall)
+		case 1:
+			holder = li(li(sy("fn"), li(sy("q")), imDef, imCall), canon.In(6))
+		case 2:
+			holder = li(sy("let"), li(sy("q"), canon.In(7)), imDef, li(sy("if"), canon.Bo(true), imCall, canon.N()))
+		default:
+			holder = li(sy("let"), li(sy("q"), canon.In(8)), imDef, li(sy("list"), imCall, li(sy("do"), g.mark(), imCall)))
+		}
+		forms = append(forms, g.tr(holder))
+	case 2:
+		// a local function shadowing a global macro of the same name: the call is an ordinary application
+		if arity == 2 {
+			g.stat("macro-shadowed-by-function")
+			shadow := li(sy("fn"), li(sy("p"), sy("q")), li(sy("list"), canon.Ke("shadowed-by-fn"), sy("p"), sy("q")))
+			callF := li(sy(name), a, b)
+			if r.Intn(2) == 0 {
+				forms = append(forms, g.tr(li(sy("let"), li(sy(name), shadow), callF)))
+			} else {
+				forms = append(forms, g.tr(li(li(sy("fn"), li(sy(name)), li(sy("do"), g.mark(), callF)), shadow)))
+			}
+		}
+	}
 	return forms
 }
 
